@@ -73,10 +73,12 @@ std::string TimeoutName(uint64_t t)
 
 CAmount Threshold(const Op& op)
 {
-    switch (op.mod(2, 4)) {
+    switch (op.mod(2, 6)) {
     case 0: return 0;
     case 1: return 1;
     case 2: return std::clamp<int64_t>(op.arg(3), 2, 10'000'000);
+    case 4: return std::numeric_limits<int64_t>::max();                          // above MAX_MONEY: fees are ignored just the same
+    case 5: return std::numeric_limits<int64_t>::max() - (op.arg(3) % 20000);   // previous fees + threshold must not be computed
     default: return MAX_MONEY;
     }
 }
@@ -119,6 +121,8 @@ Plan Gen(uint64_t seed, Tier tier)
     p.knobs["start_ns"] = (int64_t)rng.below(SEC);
     p.knobs["spurious"] = rng.chance(1, 4);        // fault: 1/16 of condition-variable waits return without a signal
     p.knobs["seed_txs"] = rng.range(0, 5);
+    // one mempool transaction whose fee puts the pool's total next to 2^31 satoshi (21.47 BTC): later fee steps cross that boundary
+    p.knobs["big_fee"] = 0;
     p.knobs["drain_s"] = rng.pick({1, 3}) == 0 ? 4 : 35;
     // thresholds "k": with the default relay floors a step below ~110 sat cannot be produced by one transaction
     const int64_t ks0[] = {2, 7, 1000, 12345, 100000}, ks1[] = {150, 1000, 5000, 12345, 100000};
@@ -131,7 +135,7 @@ Plan Gen(uint64_t seed, Tier tier)
         if (rng.chance(38, 100)) {
             op.kind = W_CALL;
             int64_t to = (int64_t)rng.pick({6, 10, 10, 14, 10, 8, 5, 1, 7, 8});
-            int64_t thk = (int64_t)rng.pick({3, 4, 6, 3});
+            int64_t thk = (int64_t)rng.pick({3, 4, 6, 3, 1, 1});
             op.a = {(int64_t)rng.below(nw), to, thk, rng.chance(3, 4) ? k : ks[rng.below(5)], (int64_t)rng.below(N_PAUSES), (int64_t)rng.chance(2, 5)};
         } else {
             int kd = (int)rng.pick({30, 14, 4, 22, 6, 10, jumps ? 5u : 0u, 3});
@@ -149,6 +153,7 @@ Plan Gen(uint64_t seed, Tier tier)
         }
         p.ops.push_back(op);
     }
+    p.knobs["big_fee"] = rng.chance(1, 5) ? (int64_t)rng.range(1, 60000) : 0; // drawn last: the rest of the plan does not depend on it
     return p;
 }
 
@@ -448,7 +453,7 @@ void WaiterMain(Shared* sp, int wi)
             c.idx = w.ncalls++;
             c.gen = w.gen;
             c.timeout = spec.timeout;
-            c.th = spec.th;
+            c.th = std::min<CAmount>(spec.th, MAX_MONEY); // the oracle's arithmetic stays within MAX_MONEY; the call gets the raw value
             c.P = w.tmpl->block.hashPrevBlock;
             c.F0 = w.tmpl_fees;
             node::BlockWaitOptions wo;
@@ -510,10 +515,15 @@ struct Driver {
                 TxIn in{COutPoint(b1.vtx[0]->GetHash(), 0), RefCoin{cb.nValue, cb.scriptPubKey, 1, true}, 0xffffffff};
                 const int n = 64;
                 std::vector<CTxOut> outs;
-                for (int i = 0; i < n; ++i) outs.emplace_back(cb.nValue / n - 1000, Keys().Spk(i % 3 == 2 ? SK::P2TR : SK::P2WPKH, i));
+                const bool big = ctx.knob("big_fee", 0) != 0; // coin 0 gets half of the coinbase so that it can pay a fee of about 2^31 sat
+                for (int i = 0; i < n; ++i) outs.emplace_back(big ? (i == 0 ? cb.nValue / 2 : cb.nValue / 2 / (n - 1) - 1100) : cb.nValue / n - 1000, Keys().Spk(i % 3 == 2 ? SK::P2TR : SK::P2WPKH, i));
                 bool ok = true;
                 auto tx = BuildTx({in}, outs, 0, 2, SigDefect::NONE, 0, ok);
-                S.txs[tx->GetHash()] = TxInfo{(CAmount)1000 * n, -1};
+                {
+                    CAmount outsum = 0;
+                    for (auto& o : outs) outsum += o.nValue;
+                    S.txs[tx->GetHash()] = TxInfo{cb.nValue - outsum, -1};
+                }
                 for (int i = 0; i < n; ++i) S.coins.push_back(Coin{COutPoint(tx->GetHash(), (uint32_t)i), outs[i].nValue, outs[i].scriptPubKey, 101});
                 vtx.push_back(tx);
             }
@@ -524,6 +534,14 @@ struct Driver {
         if (S.node.chainman->ActiveHeight() != base || S.LastTip() != S.blks[tip].hash) ctx.failf("harness-base-chain", "base chain not connected (height %d, want %d)", S.node.chainman->ActiveHeight(), base);
         Rng r(mix64(ctx.plan.seed, 0x5eed));
         int n = (int)std::clamp<int64_t>(ctx.knob("seed_txs", 0), 0, 16);
+        if (const int64_t bf = ctx.knob("big_fee", 0); bf != 0 && !S.coins.empty() && !S.coins[0].used) {
+            const CAmount fee = (CAmount{1} << 31) - 30000 + bf; // 2^31 - 30000 .. 2^31 + 30000
+            if (fee < S.coins[0].value) {
+                auto tx = Spend(0, fee);
+                S.coins[0].used = true;
+                if (Submit(tx, fee, 0, "add tx with a fee next to 2^31 sat")) ctx.probe("pool_fees_next_to_2_pow_31");
+            }
+        }
         for (int i = 0; i < n; ++i) AddTx((CAmount)r.range(S.zero_floor ? 1 : 200, 30000));
     }
 
